@@ -387,7 +387,7 @@ pub fn exec_ws(ra: &TlsAcceptor, rc: &TlsConnector, oa: &TlsAcceptor, oc: &TlsCo
             };
             let main = futures_util::future::join(fc, fs);
             let both = futures_util::future::select(Box::pin(main), relay);
-            match compio_runtime::time::timeout(Duration::from_secs(20), both).await {
+            match compio_runtime::time::timeout(Duration::from_secs(6), both).await {
                 Ok(futures_util::future::Either::Left((r, _))) => Ok(r),
                 _ => Err(()),
             }
